@@ -276,10 +276,17 @@ func genC05CaseFor(t *rapid.T, rule string) (c *ScalarCase, class string) {
 			}
 		} else {
 			o := rapid.SampledFrom(opts).Draw(t, "hitOpt")
-			if rule == "include" && class == "member" {
-				o = rapid.SampledFrom([]string{"", "zz", "_"}).Draw(t, "pre") + o + rapid.SampledFrom([]string{"", "zz"}).Draw(t, "post")
+			if n >= 2 && class == "near" && rapid.IntRange(0, 3).Draw(t, "spanOpts") == 0 {
+				// a value that spans neighbouring options (or starts / ends at a separator)
+				i := rapid.IntRange(0, n-2).Draw(t, "spanAt")
+				o = rapid.SampledFrom([]string{opts[i] + "/" + opts[i+1], "/" + opts[i], opts[i] + "/", opts[i] + "/" + opts[i+1] + "/"}).Draw(t, "spanShape")
+				c.T, c.Val = strVal(o)
+			} else {
+				if rule == "include" && class == "member" {
+					o = rapid.SampledFrom([]string{"", "zz", "_"}).Draw(t, "pre") + o + rapid.SampledFrom([]string{"", "zz"}).Draw(t, "post")
+				}
+				setStr(o)
 			}
-			setStr(o)
 		}
 	case "re":
 		p := rapid.SampledFrom(rePatterns).Draw(t, "pattern")
